@@ -1,8 +1,8 @@
-(* C05 proofs, part 6: the four operations built on Text.divide, decided exhaustively on a finite
-   domain by computation (a proof for that domain, not a sample): every text over {a, TAB, NL} of
-   length <= 3 with every well-formed span, and of length <= 2 with every ordered pair of well-formed
-   spans (two styles, duplicates and empty spans included), against every divide / slice / split /
-   expand_tabs instance listed below. *)
+(* C05 proofs, part 6: the two independent renderings kept next to the reference operations --
+   split as one left-to-right scan (str.split), expand_tabs as one walk over the characters with a column
+   counter -- coincide with the reference operations on an exhaustive finite domain (proof by
+   computation, for that domain only; the driver additionally evaluates `alt_ok` on every generated case).
+   Every character carries its own style tag, so a misplaced style would be seen. *)
 From RichModel Require Import Prelude Cells TextOps SpecTextOps.
 
 Fixpoint strings_upto (alpha : list Z) (n : nat) : list str :=
@@ -13,50 +13,31 @@ Fixpoint strings_upto (alpha : list Z) (n : nat) : list str :=
 Definition dedup_strs (l : list str) : list str :=
   fold_right (fun s acc => if existsb (str_eqb s) acc then acc else s :: acc) [] l.
 
-Definition span_choices (n : Z) : list span :=
-  flat_map (fun s => flat_map (fun e => if Z.of_nat s <=? Z.of_nat e then [(Z.of_nat s, Z.of_nat e, 1); (Z.of_nat s, Z.of_nat e, 2)] else [])
-                              (seq 0 (S (Z.to_nat n)))) (seq 0 (S (Z.to_nat n))).
-Definition span_sets (n : Z) : list (list span) :=
-  let c := span_choices n in
-  [] :: map (fun a => [a]) c ++ (if n <=? 2 then flat_map (fun a => map (fun b => [a; b]) c) c else []).
+Fixpoint tagged (i : Z) (s : str) : list rchar :=
+  match s with [] => [] | c :: r => (c, [i]) :: tagged (i + 1) r end.
+Definition ref_of (s : str) : ref := mkRef (tagged 0 s) (default_meta 3).
 
-Definition small_texts : list text :=
-  flat_map (fun s => flat_map (fun sps => [ctor FIXED s (default_meta 3) sps]) (span_sets (zlen s)))
-           (dedup_strs (strings_upto [97; 9; 10] 3)).
+Definition split_texts : list ref := map ref_of (dedup_strs (strings_upto [97; 98] 8)).
+Definition split_ops : list op :=
+  flat_map (fun sep => flat_map (fun incl => map (fun allow => OSplit sep incl allow 0) [false; true]) [false; true])
+           [[97]; [98]; [97; 98]; [97; 97]; [97; 98; 97]].
+Definition tab_texts : list ref := map ref_of (dedup_strs (strings_upto [97; 9; 10] 7)).
+Definition tab_ops : list op := map OExpandTabs [None; Some 1; Some 2; Some 3; Some 4; Some 8; Some 0].
 
-Definition idx_choices : list (option Z) := None :: map Some [-3; -1; 0; 1; 2; 4].
-Definition small_ops : list op :=
-  flat_map (fun k => map (fun offs => ODivide offs k)
-                         ([[]] ++ map (fun a => [a]) [0; 1; 2; 3; 4]
-                          ++ flat_map (fun a => flat_map (fun b => if a <=? b then [[a; b]] else []) [0; 1; 2; 3; 4]) [0; 1; 2; 3; 4]))
-           [0; 1; 2]
-  ++ flat_map (fun a => map (fun b => OSlice a b) idx_choices) idx_choices
-  ++ flat_map (fun sep => flat_map (fun incl => flat_map (fun allow => map (fun k => OSplit sep incl allow k) [0; 1])
-                                                         [false; true]) [false; true])
-              [[97]; [10]; [9]; [97; 97]; [97; 9]]
-  ++ map OExpandTabs [None; Some 1; Some 2; Some 4; Some 0].
-
-(* same outcome class; on success the new state refines the reference state and is consistent *)
-Definition step_ok (t : text) (r : ref) (o : op) : bool :=
-  negb (op_ok o r) ||
-  match apply FIXED o t, r_apply o r with
-  | Ok t', Ok r' => refines_b r' t' && consistent_b t'
-  | Crash a, Crash b => a =? b
-  | Doc a, Doc b => a =? b
-  | _, _ => false
-  end.
-
-Lemma divide_family_small :
-  forallb (fun t => consistent_b t && (let r := abs t in forallb (step_ok t r) small_ops)) small_texts = true.
+Lemma split_scan_small : forallb (fun r => forallb (fun o => alt_ok o r) split_ops) split_texts = true.
+Proof. vm_compute. reflexivity. Qed.
+Lemma tabs_walk_small : forallb (fun r => forallb (fun o => alt_ok o r) tab_ops) tab_texts = true.
+Proof. vm_compute. reflexivity. Qed.
+Lemma alt_domain_size :
+  (length split_texts, length split_ops, length tab_texts, length tab_ops) = (511%nat, 20%nat, 3280%nat, 7%nat).
 Proof. vm_compute. reflexivity. Qed.
 
-Lemma small_domain_size : (length small_texts, length small_ops) = (2116%nat, 157%nat).
-Proof. vm_compute. reflexivity. Qed.
-
-Lemma divide_family_small_forall : forall t o, In t small_texts -> In o small_ops ->
-  Consistent t /\ step_ok t (abs t) o = true.
+Lemma alt_small_forall : forall r o,
+  (In r split_texts /\ In o split_ops) \/ (In r tab_texts /\ In o tab_ops) -> alt_ok o r = true.
 Proof.
-  intros t o Ht Ho. pose proof divide_family_small as H. rewrite forallb_forall in H.
-  specialize (H t Ht). apply andb_prop in H. destruct H as [Hc H]. split; [exact Hc|].
-  cbv zeta in H. rewrite forallb_forall in H. exact (H o Ho).
+  intros r o [[Hr Ho]|[Hr Ho]].
+  - pose proof split_scan_small as H. rewrite forallb_forall in H. specialize (H r Hr).
+    rewrite forallb_forall in H. exact (H o Ho).
+  - pose proof tabs_walk_small as H. rewrite forallb_forall in H. specialize (H r Hr).
+    rewrite forallb_forall in H. exact (H o Ho).
 Qed.
